@@ -94,6 +94,11 @@ def structural(pieces, cfg, thorough):
                 m = b"\0Z" + a + b2 + b"1" + src[5:]
                 if m != src:
                     out.append(("magic=Z%s%s1(%s)" % (a.decode(), b2.decode(), tag), m))
+    # ... and the detached-header identifier on every structural mutant that keeps its body (the identifier is outside the
+    # header checksum, so this costs an attacker nothing): second deviation, always paired
+    for name, m in list(out):
+        if not name.startswith("magic=") and m[:5] == zckref.MAGIC_FILE:
+            out.append((name + "+magic=ZHR1", zckref.MAGIC_HDR + m[5:]))
     if thorough:
         # all pairs of the single-field deviations (sizes and digests), re-sealed
         fields = []
@@ -125,6 +130,15 @@ def refdecode(b):
     try:
         return zckref.decode(b)[0]
     except zckref.Invalid:
+        if b[:5] == zckref.MAGIC_HDR:
+            # the format does not say what a detached-header identifier followed by a body means; a reader that treats it
+            # as the full file it otherwise is delivers exactly what the checksums cover - accepted, nothing else is
+            try:
+                return zckref.decode(zckref.MAGIC_FILE + b[5:])[0]
+            except zckref.Invalid:
+                return None
+            except zckref.Unspecified:
+                return ANY
         return None
     except zckref.Unspecified:
         return ANY
